@@ -59,6 +59,9 @@ type FuncCtx struct {
 	globals     map[*types.Var]Val
 	hdrOnce     sync.Once
 	hdr         string
+	hdrLines    []string
+	taintOnce   sync.Once
+	taint       *tainter
 }
 
 func (fx *FuncCtx) emit(line string) { fx.lines = append(fx.lines, line) }
@@ -109,7 +112,45 @@ func (fx *FuncCtx) assume(pc, fact Term) {
 	if fact == "true" {
 		return
 	}
-	fx.emit("(assert " + sImp(pc, fact) + ")")
+	// one assertion per top-level conjunct, so that relevance pruning works per fact
+	for _, c := range topConjuncts(fact) {
+		fx.emit("(assert " + sImp(pc, c) + ")")
+	}
+}
+
+func topConjuncts(t Term) []Term {
+	if !strings.HasPrefix(t, "(and ") {
+		return []Term{t}
+	}
+	inner := t[5 : len(t)-1]
+	var out []Term
+	d := 0
+	start := 0
+	for i := 0; i < len(inner); i++ {
+		switch inner[i] {
+		case '(':
+			d++
+		case ')':
+			d--
+		case '|':
+			// quoted symbol
+			j := strings.IndexByte(inner[i+1:], '|')
+			if j >= 0 {
+				i += j + 1
+			}
+		case ' ':
+			if d == 0 {
+				if i > start {
+					out = append(out, topConjuncts(inner[start:i])...)
+				}
+				start = i + 1
+			}
+		}
+	}
+	if start < len(inner) {
+		out = append(out, topConjuncts(inner[start:])...)
+	}
+	return out
 }
 
 func (fx *FuncCtx) pos(p token.Pos) string {
@@ -315,7 +356,7 @@ func (fx *FuncCtx) fresh(t types.Type, hint string) Val {
 		}
 		return out
 	}
-	panic(unsupported{fmt.Sprintf("unsupported type %s for %s", t, hint)})
+	return VOpaque{}
 }
 
 func (fx *FuncCtx) freshStruct(name string, st *types.Struct, hint string) Val {
@@ -385,7 +426,7 @@ func (fx *FuncCtx) zero(t types.Type) Val {
 		}
 		return v
 	}
-	panic(unsupported{fmt.Sprintf("no zero value model for %s", t)})
+	return VOpaque{}
 }
 
 // strLit returns the view of a literal; literal arrays are shared per function.
